@@ -471,6 +471,8 @@ def run(ctx):
     wscheds = load_regress([pid], world="wide") + [dict(s, id="w-" + s["id"]) for s in scheds if s["id"].startswith("g")][:nwide]
     wrows, wcrashes, _ = run_schedules(ctx, wscheds, tag=pid + "_wide", world=wide)
     api_cov = {}
+    if pid == "C10":
+        api_cov = endpoint_pass(ctx)
     if pid == "C11":
         # the same calls through the HTTP layer (parameter handling of cmd/pkappa2): spec/ApiTrace.tla
         import fam_api
@@ -479,6 +481,35 @@ def run(ctx):
                                        extra=[(wide, wscheds, wrows, wcrashes)])
     cov.update(api_cov)
     return level, cov, assumptions
+
+
+def endpoint_pass(ctx):
+    """captures that arrive over a PCAP-over-IP endpoint: what a view shows at rest, judged by spec/EndpointTrace.tla"""
+    out = os.path.join(ctx.scratch, "endpoint_rows.ndjson")
+    ov = harness_overlay(ctx, PKG, "manager")
+    rc, o = go_test(ctx, PKG, ov, "^TestVerifPcapOverIP$", env_extra={"VERIF_OUT": out}, timeout=300)
+    if rc != 0 or not os.path.exists(out):
+        raise Infra("PCAP-over-IP scenario failed:\n" + o[-3000:])
+    rows = read_ndjson(out)
+    res = run_tlc(ctx, "EndpointTrace", "EndpointTrace.cfg", files=[out], workers=1, timeout=300)
+    if res.error or not res.finished:
+        raise Infra("endpoint trace validation did not run to completion:\n" + res.out[-3000:])
+    done = [p for p in res.prints if "done" in p]
+    if not done or done[-1]["done"] != len(rows):
+        raise Infra("endpoint rows not fully consumed: %s of %d" % (done, len(rows)))
+    fails = [p for p in res.prints if p.get("kind") == "fail"]
+    for f in fails:
+        if f["what"].startswith("endpoint-scenario"):
+            raise Infra("PCAP-over-IP scenario did not run as intended: %s" % f)
+    seen = set()
+    for f in fails:
+        if f["what"] in seen:
+            continue
+        seen.add(f["what"])
+        row = next(r for r in rows if r["variant"] == f["variant"])
+        ctx.violation(f["what"], "%s fails for the capture stream served with pause pattern %s: a view at rest shows %s" % (
+            f["what"], f["variant"], json.dumps(row["vis"])[:300]), {"row": row})
+    return {"endpoint_variants": len(rows), "endpoint_capture_files_written_by_the_service": [r["pcaps"] for r in rows]}
 
 
 def evaluate(ctx, pid, scheds, rows, crashes, states, trans, mc_notes, convs=(), extra=()):
